@@ -22,8 +22,8 @@ pub fn prop() -> Prop {
             "colour conversion is judged by the From impl itself (the property says 'through Into')",
         ],
         subs: vec![
-            Sub::tape("histories_native_parent", 700, 300_000, 15_000_000, |d, cx| history(d, cx, true)),
-            Sub::tape("histories_default_parent", 700, 300_000, 15_000_000, |d, cx| history(d, cx, false)),
+            Sub::tape("histories_native_parent", 2500, 300_000, 15_000_000, |d, cx| history(d, cx, true)),
+            Sub::tape("histories_default_parent", 2500, 300_000, 15_000_000, |d, cx| history(d, cx, false)),
         ],
     }
 }
